@@ -308,6 +308,8 @@ def run(s):
         'mayEscape': s['inj'].get('fin', 'ok') != 'ok', 'wcloseExpected': s['inj'].get('fin', 'ok') != 'raise_closed',
         'fault': err is not None, 'fnOk': state['fnOk'],
         'infault': ierr is not None,
+        # the method was matched: a well-formed request for an existing method that is not refused for its size
+        'bound': False,
         'malformed': s['req'].get('kind', 'rpc') == 'rpc' and (s['req']['class'] != 'valid' or (units and s['cfg']['family'] != 'http'
                       and min(declared_eff, s['req']['len']) < s['req']['len'] and declared_eff <= maxlen_u)),
         'code': code, 'cls': cls, 'status': status[0],
@@ -320,6 +322,9 @@ def run(s):
         'hdrOk': hdr_ok[0], 'clen': clen[0], 'bodyBytes': body_bytes[0], 'bytesOk': bytes_ok[0],
         'consumedAll': s['abort'] == 99,
     }
+    k = rec['k']
+    truncated = bool(units and s['cfg']['family'] != 'http' and min(declared_eff, s['req']['len']) < s['req']['len'])
+    k['bound'] = bool(k['rpc'] and s['req']['class'] in ('valid', 'badargs') and not k['toolong'] and not truncated)
     return rec
 
 
